@@ -82,7 +82,7 @@ Definition text_modelled (c : case) : bool :=
 
 Fixpoint has_data (t : cty) : bool :=
   match t with
-  | CData _ => true
+  | CData _ | CSub _ => true
   | CUnion ts | CTuple ts => existsb has_data ts
   | CList t1 | CDict _ t1 | CTupleVar t1 | CSet t1 => has_data t1
   | _ => false
